@@ -142,7 +142,7 @@ def _model_sizes(case, tier_models):
                 continue
             if k >= 3 and (no, nv) not in ((3, 3), (4, 4)):
                 continue
-            if case[3] >= 3 and (no, nv) != (2, 2) and k < 3:
+            if case[3] >= 3 and (no, nv) not in ((2, 2), (3, 3)) and k < 3:
                 continue
         elif kind == "energy":
             if (no, nv) == (4, 4) and case[3] < 3:
